@@ -79,10 +79,11 @@ Theorem reduce_step_refuted :
     (forall k, (k < 3)%nat -> T k <> 0 -> Z.abs (T m) <= Z.abs (T k)) /\
     ~ exists Q : mat, forall r c, (r < 3)%nat -> (c < 3)%nat -> mm 3 (reduce_P3 M T m) Q r c = M * mI r c.
 Proof.
-  exists 5, (vl [2; 0; 0]), 0%nat. split; [lia|]. split; [cbn; lia|]. split.
-  - intros k Hk. destruct (m3_cases k Hk) as [E|[E|E]]; subst k; cbn; lia.
+  exists 5, (vl [2; 0; 0]), 0%nat. split; [lia|]. split; [vm_compute; discriminate|]. split.
+  - intros k Hk. destruct (m3_cases k Hk) as [E|[E|E]]; subst k; unfold vl; cbn [nth]; lia.
   - intros [Q HQ]. specialize (HQ 0%nat 0%nat ltac:(lia) ltac:(lia)).
-    unfold mm, reduce_P3, reduce_ij, cols3, vscale, evec, mI, vl in HQ. cbn in HQ. lia.
+    unfold mm, reduce_P3, reduce_ij, cols3, vscale, evec, mI, vl in HQ. cbn in HQ.
+    destruct (Q 0%nat 0%nat); lia.
 Qed.
 
 (* ---- minlattice --------------------------------------------------------------------------------- *)
